@@ -245,7 +245,8 @@ class Lattice(object):
 class Breakages(object):
     name = 'breakages'
     describe = ('every documented breakage at every applicable position: parsed under {its option (+ SMIv1 keywords where the '
-                'option needs them)}, under the SMIv1 dialect plus that option, and under the shipped relaxed dialect')
+                'option needs them)}, under the SMIv1 dialect plus that option, and under the shipped relaxed dialect; also with the debug '
+                'categories parser / all switched on')
 
     def blocks(self, tier):
         return [{'opt': o} for o in OPTIONS]
@@ -255,6 +256,9 @@ class Breakages(object):
             if b['opt'] == block['opt']:
                 for ctx in ('alone', 'smiV1+', 'relaxed'):
                     yield {'opt': b['opt'], 'n': b['n'], 'ctx': ctx}
+                # ... and with the debug categories of the package switched on (messages go to a printer that drops them)
+                yield {'opt': b['opt'], 'n': b['n'], 'ctx': 'alone', 'debug': 'parser'}
+                yield {'opt': b['opt'], 'n': b['n'], 'ctx': 'relaxed', 'debug': 'all'}
 
     def run_case(self, case):
         b = [x for x in breakages() if x['opt'] == case['opt'] and x['n'] == case['n']][0]
@@ -264,10 +268,18 @@ class Breakages(object):
             S = set(['supportSmiV1Keywords', 'supportIndex', b['opt']])
         else:
             S = set(OPTIONS)
-        r = parse(build(frozenset(S)), b['text'])
+        if case.get('debug'):
+            from pysmi import debug
+            debug.setLogger(debug.Debug(case['debug'], loggerName='mc-C17-dropped'))
+        try:
+            r = parse(build(frozenset(S)), b['text'])
+        finally:
+            if case.get('debug'):
+                debug.setLogger(0)
         vs = []
         if r != ('ok', b['tree']):
-            vs.append(('C17|breakage|%s|%s|%s' % (b['opt'], case['ctx'], 'rejected' if r[0] != 'ok' else 'different-tree'),
+            vs.append(('C17|breakage|%s|%s%s|%s' % (b['opt'], case['ctx'], '+debug' if case.get('debug') else '',
+                                                   'rejected' if r[0] != 'ok' else 'different-tree'),
                        'text %r\nunder %r -> %r\nexpected %r' % (b['text'], sorted(S), r, b['tree'])))
         return r[0], vs, 1
 
